@@ -184,6 +184,9 @@ func (server *SugarDB) handleCommand(ctx context.Context, message []byte, conn *
 				break
 			}
 		}
+		// Whichever way the command ends (executed here, applied through raft, forwarded or refused), it
+		// is over when this function returns: a state copy must not wait for it any longer.
+		defer server.stateMutationInProgress.Store(false)
 	}
 
 	if !server.isInCluster() || !synchronize {
